@@ -76,6 +76,22 @@ pub fn s5(driver: &str, workers: u32) -> Scenario {
     Scenario::new(&format!("S5-sparse-{}-w{}", driver, workers), tree, &["-r", "--driver", driver, "-w", &w, "--block-size", "4096", "src", "dst"])
 }
 
+/// S6: special files next to directories and files that are created by other threads meanwhile
+pub fn s6(driver: &str, workers: u32) -> Scenario {
+    let w = workers.to_string();
+    let tree = vec![
+        Entry::dir("src"),
+        Entry::new("src/p1", crate::scen::Kind::Fifo).mode(0o666),
+        Entry::dir("src/d1"),
+        Entry::file("src/d1/f", "0123456789").mode(0o640).mtime(1_300_000_000, 1),
+        Entry::new("src/d1/p2", crate::scen::Kind::Fifo).mode(0o622),
+        Entry::dir("src/d2"),
+        Entry::dir("src/d2/d3"),
+        Entry::file("src/z", "zz").mtime(1_300_000_001, 2),
+    ];
+    Scenario::new(&format!("S6-specials-{}-w{}", driver, workers), tree, &["-r", "--no-perms", "--driver", driver, "-w", &w, "--block-size", "4", "src", "dst"])
+}
+
 /// tiny: parblock, one file of two blocks, two workers (the smallest scenario with a block race)
 pub fn tiny(driver: &str) -> Scenario {
     let tree = vec![Entry::dir("src"), Entry::file("src/a", "01234567").mode(0o640).mtime(1_300_000_000, 1)];
@@ -149,6 +165,7 @@ pub fn schedule_jobs_level(level: u8, tf: &dyn Fn(Scenario) -> Scenario) -> Vec<
         add("S1 under parblock (driver agreement) w2", vec![s1_driver("parblock", 2)], 1);
         add("S4 w8 parblock", vec![s2(8, 4)], 1);
         add("S5 sparse + dense, both drivers w2", vec![s5("parblock", 2), s5("parfile", 2)], 1);
+        add("S6 special files among directories and files, both drivers w2", vec![s6("parblock", 2), s6("parfile", 2)], 1);
         add("S4 w64 both drivers", vec![s1(64), s2(64, 4)], 0);
         add("tiny parblock", vec![tiny("parblock")], 2);
     } else {
@@ -162,6 +179,7 @@ pub fn schedule_jobs_level(level: u8, tf: &dyn Fn(Scenario) -> Scenario) -> Vec<
         add("S1 under parblock (driver agreement) w2", vec![s1_driver("parblock", 2)], if deep { 2 } else { 1 });
         add("S4 w{8,64} both drivers", vec![s1(8), s2(8, 4), s1(64), s2(64, 4)], 1);
         add("S5 sparse + dense, both drivers w2", vec![s5("parblock", 2), s5("parfile", 2)], if deep { 2 } else { 1 });
+        add("S6 special files among directories and files, both drivers w{2,3}", vec![s6("parblock", 2), s6("parfile", 2), s6("parfile", 3)], if deep { 2 } else { 1 });
         add("tiny both drivers", vec![tiny("parblock"), tiny("parfile")], if deep { 3 } else { 2 });
     }
     drop(add);
